@@ -9,7 +9,7 @@ COQ_CORR = 'corr_C19'
 N_QUICK = 2500
 N_THOROUGH = 12000
 THOROUGH_EXHAUSTIVE = False
-VM_CASES = 67          # the first cases are also evaluated inside Coq (vm_compute); the corpus minus its last entry
+VM_CASES = 76          # the first cases are also evaluated inside Coq (vm_compute); the corpus minus its last entry
 RULE = ('cases = corpus + random rules printed from abstract token lists (literal chunks incl. digits, "-", ".", '
         'non-ASCII; values containing CR (the wildcard marker), LF, NUL, TAB; plain wildcards in the three flavours :n <n> {n}; int/float/re/path filters in bottle and dotted '
         'flavour, named and anonymous; adjacent wildcards, adjacent literals, leading/trailing literals) x paths that '
@@ -180,6 +180,17 @@ def corpus():
         mk([L('files/'), W('p', 're', '.+', 'd<'), L('.txt')], '/files//a//b.txt'),
         mk([L('d/'), W(None, 're', '/?[a-z]+'), L('/'), W('q', 're', '/?[a-z]+', 'd{')], '/d//abc//q'),
         mk([L('files/'), W('p', 'path')], None, [], {'p': ['s', '/abs/path']}),
+        # ---- percent signs in the request path are plain text: a value is written back verbatim and must come back verbatim
+        mk([L('files/'), W('name')], '/files/%2541'),
+        mk([L('files/'), W('name', 're', '[^/]+')], '/files/a%2Fb'),
+        mk([W('a'), L('/'), W('p', 'path')], '/%/%zz/100%/%25'),
+        # ---- masks that look behind their own start, at a non-zero offset (the filter sees only the rest of the path)
+        mk([L('img/'), W('w', 'int'), L('x'), W('h', 're', r'(?<=x)\d+')], '/img/640x480'),
+        mk([L('id'), W('num', 're', r'\B\d+', 'd<')], '/id123'),
+        mk([L('id'), W('num', 're', r'\b\d+', 'd<')], '/id123'),
+        mk([L('v-'), W('w', 're', r'\b[a-z]+'), L('/'), W('u', 're', '^a+', 'd{')], '/v-abc/aa'),
+        mk([W('w', 'int'), W('h', 're', r'(?<![0-9])-?\d+', 'd<')], '/12-5'),
+        mk([L('a'), W('h', 're', r'(?<!a)\d+')], '/a12'),
         # ---- raw request paths with doubled slashes at their ends, first/last wildcard able to hold '/'
         mk([L('files/'), W('p', 'path')], '/files/css//'),
         mk([L('files/'), W('p', 'path')], '//files/css'),
@@ -231,9 +242,18 @@ def corpus():
 LITS = ['a', 'ab', 'abc', 'b', 'e', 'x-y', '0', '7', '-', '.5', 'a.b', '.txt', 'z', 'é', '10', 'files/', 'a/']
 SEPS = ['/', '/', '/', '', '-', '.']
 RE_ARGS = ['[a-z]+', 'a*', '[^/]+', r'\d{2}', 'ab|a', '[a-z]*', '/?[a-z]+', '.+']
+# masks that look BEHIND their own start (lookbehind, word boundary, anchors): the router applies a filter to the rest
+# of the path, so for them the wildcard starts a fresh string — exactly what Route.url validates against
+CTX_ARGS = [r'(?<=x)\d+', r'(?<!a)\d+', r'\B\d+', r'\b\d+', r'\b[a-z]+', r'\B[a-z]+', '^a+', r'\Aab?', r'(?<![0-9])-?\d+']
+CTX_VALS = {r'(?<=x)\d+': ['480', '7'], r'(?<!a)\d+': ['12', '0'], r'\B\d+': ['123', '4'], r'\b\d+': ['123', '4'],
+            r'\b[a-z]+': ['abc', 'q'], r'\B[a-z]+': ['abc', 'q'], '^a+': ['a', 'aaa'], r'\Aab?': ['a', 'ab'],
+            r'(?<![0-9])-?\d+': ['-5', '5']}
+CTX_PREFIX = ['x', 'id', 'ax', 'a', '-', '/', '0', 'img/640x', 'z.', '']
 # values may contain the wildcard marker itself (%0D in a request path is plain text since fix F1) and other controls
 PLAIN_VALS = ['v', 'abc', '', '12', 'a.b', 'é', '-0', 'x y', '0', 'a-b', 'x\ry', '\r', '\r\r', 'a\nb', '\x00', '\t7',
-              'b\n', '\ud800', '²', 'ß\u0130', '\U0001f600']
+              'b\n', '\ud800', '²', 'ß\u0130', '\U0001f600',
+              # percent signs are plain text for the router (decoding PATH_INFO is the server's business, once)
+              '%41', '%2541', '%2F', '%', '%zz', 'a%20b', '%252F', '%25', '100%']
 # (\d and int() accept every Unicode Nd digit; isdigit() also accepts superscripts, which \d does not)
 INT_VALS = ['0', '7', '-7', '007', '-0', '42', '12345678901234567890', '-00', '10', '１２', '٣', '7²']
 FLOAT_VALS = ['1.5', '0.00001', '3', '-0', '-2.50', '12345678901234567890', '0.1', '10.0', '1.0', '123456.789',
@@ -242,10 +262,10 @@ REX_ARGS = [('(foo)|(bar)', 1), ('(foo)|(bar)', 2), ('fo+', None), ('(a)|(b)|(c)
 REX_VALS = {('(foo)|(bar)', 1): ['foo', 'bar'], ('(foo)|(bar)', 2): ['bar', 'foo'], ('fo+', None): ['fo', 'foo', 'f'],
             ('(a)|(b)|(c)', 3): ['c', 'a'], ('(x+)y', None): ['xxy', 'xy']}
 RE_VALS = {'/?[a-z]+': ['/abc', 'abc', '/q'], '.+': ['/etc/passwd', '/', 'a/b', '//', 'x'],
-           '[a-z]+': ['a', 'abc', 'zz', '', 'ab\n'], 'a*': ['', 'a', 'aaa'], '[^/]+': ['a', 'a-b.c', '12', 'x\ry', '\r'],
+           '[a-z]+': ['a', 'abc', 'zz', '', 'ab\n'], 'a*': ['', 'a', 'aaa'], '[^/]+': ['a', 'a-b.c', '12', 'x\ry', '\r', '%41', '%2541', 'a%2Fb'],
            r'\d{2}': ['12', '00', '123'], 'ab|a': ['ab', 'a'], '[a-z]*': ['', 'q', 'abc']}
 # (a path/re value may begin with '/': a request path with a doubled slash at the wildcard, /files//etc/passwd)
-PATH_VALS = ['/etc/passwd', '/', '//x', '/a/', 'a', 'a/b', 'a/b/c.txt', 'e/e', 'x.y/z', 'q\rr/s', '\r/\r', 'a\n', 'a\nb/c', '\ud800/x']
+PATH_VALS = ['a%2Fb/c', '%2541/%', '/etc/passwd', '/', '//x', '/a/', 'a', 'a/b', 'a/b/c.txt', 'e/e', 'x.y/z', 'q\rr/s', '\r/\r', 'a\n', 'a\nb/c', '\ud800/x']
 
 
 def gen_toks(rng):
@@ -308,7 +328,7 @@ def tok_value(rng, t):
     if flt == 'float':
         return rng.choice(FLOAT_VALS)
     if flt == 're':
-        return rng.choice(RE_VALS[t[3]])
+        return rng.choice(CTX_VALS[t[3]] if t[3] in CTX_VALS else RE_VALS[t[3]])
     if flt == 'rex':
         return rng.choice(REX_VALS[(t[3], t[5])])
     if flt == 'up2':
@@ -432,6 +452,21 @@ def _refilter(rng, toks):
     return out
 
 
+def gen_ctx_toks(rng):
+    """a re wildcard with a context-sensitive mask at a non-zero offset: after literal text and/or another wildcard"""
+    toks = []
+    if rng.random() < 0.4:
+        toks += [L(rng.choice(['img/', 'n/', ''])), W('w', rng.choice(['int', None, 'float']))]
+        toks = [t for t in toks if t != L('')]
+    pre = rng.choice(CTX_PREFIX)
+    if pre and not (pre.startswith('/') and not toks):       # '//...' is not a rule
+        toks.append(L(pre))
+    toks.append(W(rng.choice(['h', None]), 're', rng.choice(CTX_ARGS), rng.choice(['b<', 'd<', 'b{', 'd{'])))
+    if rng.random() < 0.4:
+        toks += [L(rng.choice(['/', '.png', '-'])), W('t')]
+    return toks
+
+
 def gen_multi(rng):
     n = rng.choice([2, 2, 3, 4])
     rules = [gen_toks(rng)]
@@ -475,7 +510,7 @@ def gen(rng, n):
         if rng.random() < 0.08:
             c = gen_multi(rng)
         else:
-            toks = gen_toks(rng)
+            toks = gen_ctx_toks(rng) if rng.random() < 0.05 else gen_toks(rng)
             if rng.random() < 0.82:
                 p = '/' + ''.join(tok_value(rng, t) for t in toks)
                 if rng.random() < 0.2:
